@@ -11,7 +11,7 @@ It does not decide that output bytes equal the reference decoding (numerical).""
 import cfg, rules, frag, expandrules, parsefsm
 import random
 from frag import Frag, Ptr, Unknown
-from irdb import broken, enumerators, reg_var_names, init_ints
+from irdb import broken, enumerators, reg_var_names, init_ints, var_roles
 from prov import Prov, strip_casts, strip_ext, addr_key, render, peel_cond
 
 LEVEL = 'other'
@@ -87,6 +87,9 @@ class LoopStep:
         self.vreg = self.peek.ops[0][1]
         self.region = {b for b in f.blocks if b in self.dom and self.P in self.dom[b]}
         self.names = reg_var_names(f)
+        roles = var_roles(f, Prov(prog, f))
+        self.wname = roles.get('.live', 'w')        # the local restored from bs->live (bit count)
+        self.vname = roles.get('.buff', 'v')        # the local restored from bs->buff (bit buffer)
         self.width = width
         vd = f.defs.get(self.vreg)
         if vd is None or vd.op != 'phi':
@@ -95,7 +98,7 @@ class LoopStep:
         # the bit counter: the i32 phi of the same block whose source variable is the one DUMP decrements
         self.wreg = None
         for i in self.head.insns:
-            if i.op == 'phi' and i.ty == ('int', 32) and self.names.get(i.res) == 'w':
+            if i.op == 'phi' and i.ty == ('int', 32) and self.names.get(i.res) == self.wname:
                 self.wreg = i.res
         if self.wreg is None:
             broken('retrieve(): bit counter phi not found next to the bit buffer')
@@ -132,9 +135,9 @@ class LoopStep:
         sb = r[1].block
         v1 = w1 = None
         for i in sb.insns:
-            if i.op == 'phi' and self.names.get(i.res) == 'v' and i.ty == ('int', 64):
+            if i.op == 'phi' and self.names.get(i.res) == self.vname and i.ty == ('int', 64):
                 v1 = fr.regs.get(i.res)
-            if i.op == 'phi' and self.names.get(i.res) == 'w' and i.ty == ('int', 32):
+            if i.op == 'phi' and self.names.get(i.res) == self.wname and i.ty == ('int', 32):
                 w1 = fr.regs.get(i.res)
         if v1 is None or w1 is None:
             return ('unknown', 'bit buffer not carried to %s' % sb.name), fr
